@@ -31,9 +31,19 @@ Line-protocol driver for the C13 models (calendar, interval calculators, query p
                                         `unknown-variant` if the source text is neither known variant)
   batch <c> t1 t2 ...               -> F:t,t,.. F:t,..  (family groups of one shard's rows, BrokerBatchShardFamilyIterator;
                                         groups sorted by family, rows sorted) | none
+  dstzone <zone>@<year>             -> off0 a1 o1 a2 o2 (the table Model/C13DstZones.lean; the harness answers with what Go's
+                                        time package reports from the tz database) | unknown
+  bpool c1 t.. | c2 t.. | ..        -> the groups of every request, ` | `-separated: a sequence of write requests (interval type,
+                                        rows) served by ONE pooled iterator object (stateful model FamIter, Model/C13Broker.lean)
+  biter t1 t2 .. | c1 c2 ..         -> the same batch iterated once per calculator without release (rows stay as the previous
+                                        in-place sort left them)
+  bshard <c> | i1 t1 i2 t2 ..       -> <shard>=<groups> | ..: rows (shard index, timestamp) of one batch, the shard groups served
+                                        by the batch's one family iterator
   rollup <src> <tgt> <srcFamilyTime> <slot> -> <targetFTime> <ratio> <baseSlot> <ts> <slot(ts)> | panic
   goc <c> | t1 t2 ... | i1 i2 ...   -> T <obj per writer> R <registered obj per writer> opened <n>
   gdfz <zone> <c> qs qe | t1 t2 ..     -> the range lookup with time.Local = the zone (family starts, sorted) | none
+  gdfzt <c> qs qe | t1 t2 .. | off0 at1 off1 ..
+                                    -> the range lookup with time.Local = the transition-list zone (daylight saving)
   goce <c> | t1 .. | i1 e i2 .. | p1 ..  -> writers + Shard.EvictSegment() (`e`) in the schedule, families of
                                        p1.. on disk: T <obj|-> R <registered obj|-> E <error flags> opened <n>
                                        (writers Shard.GetOrCrateDataFamily(t1), (t2), .. on fresh segments; the
@@ -54,6 +64,8 @@ import LinVerif.Model.Interval
 import LinVerif.Model.IntervalZone
 import LinVerif.Model.GetOrCreate
 import LinVerif.Model.C13Evict
+import LinVerif.Model.C13Broker
+import LinVerif.Model.C13DstZones
 import LinVerif.Generated.C13
 
 namespace LinVerif.Driver.C13
@@ -100,6 +112,22 @@ def showGroups (gs : List (Int × List Int)) : String :=
   " ".intercalate (gs.map fun (f, rows) => s!"{f}:" ++ ",".intercalate ((sortInts rows).map toString))
 
 def ints (ws : List String) : Option (List Int) := ws.mapM String.toInt?
+
+/-- `c t1 t2 ..` of a `bpool` request -/
+def parseReq (ws : List String) : Option (Calc × List Int) :=
+  match ws with
+  | c :: ts => match parseCalc c, ts.mapM String.toInt? with
+    | some c, some ts => some (c, ts)
+    | _, _ => none
+  | [] => none
+
+/-- `i1 t1 i2 t2 ..` of `bshard` -/
+def parsePairs : List String → Option (List (Nat × Int))
+  | [] => some []
+  | i :: t :: rest => match i.toNat?, t.toInt?, parsePairs rest with
+    | some i, some t, some r => some ((i, t) :: r)
+    | _, _, _ => none
+  | [_] => none
 
 /-- schedule token of `goce`: a writer index or `e` (one `Shard.EvictSegment()`) -/
 def parseEStep (w : String) : Option EStep :=
@@ -279,10 +307,50 @@ def step (st : Unit) (ws : List String) : Unit × String :=
           | _ => "unknown-variant"
         | _, _, _, _, _ => "bad-op"
       | _ => "bad-op"
+    | "gdfzt" :: rest =>
+      let rec pairs2 : List Int → Option (List (Int × Int))
+        | [] => some []
+        | a :: o :: r => (pairs2 r).map ((a, o) :: ·)
+        | [_] => none
+      match splitBar rest with
+      | [[c, qs, qe], ts, off0 :: trs] =>
+        match parseCalc c, qs.toInt?, qe.toInt?, ints ts, off0.toInt?, (ints trs).bind pairs2 with
+        | some c, some qs, some qe, some ts, some off0, some trs =>
+          match lookupVariant with
+          | some .ownSegment =>
+            let r := (sortInts (getDataFamiliesZ (Zone.ofTransitions off0 trs) c ⟨qs, qe⟩ ts)).eraseDups
+            if r.isEmpty then "none" else Proto.joinInt r
+          | _ => "unknown-variant"
+        | _, _, _, _, _, _ => "bad-op"
+      | _ => "bad-op"
     | "batch" :: c :: rest =>
       match parseCalc c, ints rest with
       | some c, some ts => showGroups (groupFamilies c ts)
       | _, _ => "bad-op"
+    | ["dstzone", name] => (dstZoneLine name).getD "unknown"
+    | "bpool" :: rest =>
+      match (splitBar rest).mapM parseReq with
+      | some reqs => " | ".intercalate ((FamIter.serveAll FamIter.zero reqs).map showGroups)
+      | none => "bad-op"
+    | "biter" :: rest =>
+      match splitBar rest with
+      | [ts, cs] =>
+        match ints ts, cs.mapM parseCalc with
+        | some ts, some cs =>
+          if cs.isEmpty then "bad-op" else
+          " | ".intercalate ((FamIter.reiterate FamIter.zero ts cs).map showGroups)
+        | _, _ => "bad-op"
+      | _ => "bad-op"
+    | "bshard" :: rest =>
+      match splitBar rest with
+      | [[c], ps] =>
+        match parseCalc c, parsePairs ps with
+        | some c, some rows =>
+          if rows.isEmpty then "none" else
+          " | ".intercalate ((FamIter.serveShards FamIter.zero c (shardGroups rows)).map
+            fun (i, gs) => s!"{i}=" ++ showGroups gs)
+        | _, _ => "bad-op"
+      | _ => "bad-op"
     | ["rollup", src, tgt, f, k] =>
       match src.toInt?, tgt.toInt?, f.toInt?, k.toInt? with
       | some src, some tgt, some f, some k =>
